@@ -31,19 +31,13 @@ Print Assumptions memo_transparent.
 
 (* ---- the predefined month macros ---- *)
 
-(* FULL STATEMENT (refuted by the faithful model, finding F28):
-     forall cap fmt cos, h_get (g_heap (final cap fmt G0 cos)) 0 = mkCell false month_names *)
-Theorem month_names_invariant_refuted :
-  exists cap fmt cos, h_get (g_heap (final cap fmt G0 cos)) 0 <> mkCell false month_names.
-Proof. exact month_names_refuted_lemma. Qed.
-Print Assumptions month_names_invariant_refuted.
-
-(* no history of calls alters month_names, except through a LowLevelParser built without a macros
-   argument: readers (Parser) copy the table, and everything else never touches it *)
-Theorem month_names_invariant_partial : forall cap fmt cos, Forall (fun co => safe_op (snd co)) cos ->
+(* no history of calls -- readers, LowLevelParser with or without a macros argument, format.name$,
+   BST runs, mode switches, failed runs, writers / Python engine / other readers (opaque) -- alters
+   month_names: readers and the bare LowLevelParser copy the table, nothing else touches it *)
+Theorem month_names_invariant : forall cap fmt cos,
   h_get (g_heap (final cap fmt G0 cos)) 0 = mkCell false month_names.
 Proof. exact month_names_invariant_lemma. Qed.
-Print Assumptions month_names_invariant_partial.
+Print Assumptions month_names_invariant.
 
 (* ---- readers ---- *)
 
@@ -56,29 +50,34 @@ Theorem readers_isolated : forall cap fmt g g' c macros files,
 Proof. exact parse_isolated_lemma. Qed.
 Print Assumptions readers_isolated.
 
-(* ... and after any history (without the F28 call) it is what the initial state gives under the
-   same reporting settings *)
-Theorem parse_history_independent_partial : forall cap fmt cos c macros files,
-  Forall (fun co => safe_op (snd co)) cos ->
+(* ... and after any history it is what the initial state gives under the same reporting cells *)
+Theorem parse_history_independent : forall cap fmt cos c macros files,
   let g := final cap fmt G0 cos in
   snd (step cap fmt g (c, OParse macros files)) = snd (step cap fmt (with_err G0 (g_err g)) (c, OParse macros files)).
 Proof. exact parse_history_independent_lemma. Qed.
-Print Assumptions parse_history_independent_partial.
+Print Assumptions parse_history_independent.
 
 (* in the default (strict) reporting mode nothing is left over at all: after any history that does
-   not switch strict mode off (failed runs, capture() blocks, the F28 call ... included) the three
+   not switch strict mode off (failed runs, capture() blocks, bare LowLevelParser use ... included) the three
    errors-module cells are exactly as in a fresh process *)
 Theorem strict_mode_cells_untouched : forall cap fmt cos,
   Forall (fun co => keeps_strict (snd co)) cos -> g_err (final cap fmt G0 cos) = errs0.
 Proof. exact run_errs0. Qed.
 Print Assumptions strict_mode_cells_untouched.
 
-(* ... hence a fresh reader returns exactly what it returns in a fresh process (F28 call excluded) *)
-Theorem parse_history_independent_strict_partial : forall cap fmt cos c macros files,
-  Forall (fun co => safe_op (snd co) /\ keeps_strict (snd co)) cos ->
+(* ... hence a fresh reader returns exactly what it returns in a fresh process *)
+Theorem parse_history_independent_strict : forall cap fmt cos c macros files,
+  Forall (fun co => keeps_strict (snd co)) cos ->
   snd (step cap fmt (final cap fmt G0 cos) (c, OParse macros files)) = snd (step cap fmt G0 (c, OParse macros files)).
 Proof. exact parse_history_independent_strict_lemma. Qed.
-Print Assumptions parse_history_independent_strict_partial.
+Print Assumptions parse_history_independent_strict.
+
+(* ... and so does a LowLevelParser built without a macros argument (it works on a private copy) *)
+Theorem lowlevel_history_independent_strict : forall cap fmt cos c file,
+  Forall (fun co => keeps_strict (snd co)) cos ->
+  snd (step cap fmt (final cap fmt G0 cos) (c, OLowLevel None file)) = snd (step cap fmt G0 (c, OLowLevel None file)).
+Proof. exact lowlevel_history_independent_strict_lemma. Qed.
+Print Assumptions lowlevel_history_independent_strict.
 
 (* in every mode: after any history every capture() block has been left -- also by the exceptions of
    failed runs -- and normal reporting is in force *)
@@ -113,7 +112,7 @@ Print Assumptions history_independence_value_refuted.
 
 (* when name formatting reports nothing (no name with more than two commas), the complete outcome
    of a format.name$ call -- value or exception, warnings, captured problems -- after ANY history
-   (including the F28 call, more distinct calls than the caches hold, failed runs, mode switches)
+   (including bare LowLevelParser use, more distinct calls than the caches hold, failed runs, mode switches)
    is its outcome in a fresh process, for every cache capacity *)
 Theorem format_name_history_independent_partial : forall cap fmt cos c names n format,
   0 < cap -> quiet fmt ->
@@ -152,13 +151,16 @@ Print Assumptions capture_restores.
 (* ---- non-vacuity ---- *)
 Definition ex_m : str := Eval vm_compute in s2l "m".
 Definition ex_file1 : list command := [CString ex_m [VLit [86%N]]].
+Definition x_jan : str := Eval vm_compute in s2l "jan".
+Definition ex_jan : list command := [CString x_jan [VLit [88%N]]].
 Definition ex_file2 : list command := [CEntry [97%N] [107%N] [([110%N], [VMacro ex_m])]].
 
-(* a history satisfying safe_op that really writes macro tables, caches and reporting cells *)
-Example safe_history_example :
-  let cos := [(false, ONewReader None); (true, OFeed 0 ex_file1); (false, OLowLevel (Some 0) ex_file1);
+(* a history that really writes macro tables, caches and reporting cells, and uses a bare LowLevelParser
+   on an @string that redefines a month *)
+Example busy_history_example :
+  let cos := [(false, ONewReader None); (true, OFeed 0 ex_file1); (false, OLowLevel (Some 0) ex_file1); (false, OLowLevel None ex_jan);
               (true, OFormatName [97%N] 1%Z []); (false, OSetStrict false); (false, OParse None [ex_file2])] in
-  Forall (fun co => safe_op (snd co)) cos /\
+  o_val (snd (step 2 no_fmt G0 (false, OLowLevel None ex_jan))) = Ok (VItems [IString x_jan [[88%N]]]) /\
   length (g_heap (final 2 no_fmt G0 cos)) = 2 /\ e_code (g_err (final 2 no_fmt G0 cos)) = 2%Z.
 Proof. vm_compute. repeat split; repeat constructor. Qed.
 
@@ -177,12 +179,12 @@ Example f19_value_same_reports_differ :
   o_val after = o_val fresh /\ o_val fresh = Ok (VStr [97%N]) /\ o_captured after = Some [] /\ o_captured fresh = Some [(E_NAME, [97%N])].
 Proof. vm_compute. auto. Qed.
 
-(* a history meeting safe_op and keeps_strict that contains a failed run, a failed run inside
+(* a history meeting keeps_strict that contains a failed run, a failed run inside
    capture(), cache traffic and a live reader; the probe after it is a failing parse *)
 Example strict_history_example :
   let cos := [(false, OParse None [ex_file2]); (true, OParse None [ex_file2; ex_file1]); (false, ONewReader None);
-              (true, OFeed 0 ex_file1); (false, OFormatName [97%N] 3%Z []); (false, OSetStrict true)] in
-  Forall (fun co => safe_op (snd co) /\ keeps_strict (snd co)) cos /\
+              (true, OFeed 0 ex_file1); (false, OLowLevel None ex_jan); (false, OOpaque 3); (false, OFormatName [97%N] 3%Z []); (false, OSetStrict true)] in
+  Forall (fun co => keeps_strict (snd co)) cos /\
   o_val (snd (step 2 no_fmt G0 (false, OParse None [ex_file2]))) = PyErr E_UNDEF (-1)%Z /\
   o_captured (snd (step 2 no_fmt G0 (true, OParse None [ex_file2; ex_file1]))) = Some [(E_UNDEF, ex_m)].
 Proof. vm_compute. repeat split; repeat constructor. Qed.
